@@ -436,12 +436,20 @@ fn call(st: &mut Stats, f: Fid, z: &Cmplx) -> Option<Cmplx> {
 /// ln / sqrt: only a negative-zero imaginary part on the negative real axis admits the lower side (both
 /// readings of the property agree that +0 means the closed upper side, which the DD code returns for z itself).
 const ETA: f64 = 1e-200;
+/// A non-zero offset from an axis smaller than TINY (down to the smallest subnormal) still selects the side of a cut by
+/// its SIGN, but its square underflows in the DD reference; the reference is therefore evaluated at the one-sided
+/// limit +-ETA on that side (the functions are continuous up to the cut from either side).
+const TINY: f64 = 1e-150;
 fn sides(f: Fid, z: &Cmplx, zc: CDD) -> Vec<CDD> {
+    let tiny = |x: f64| x != 0.0 && x.abs() < TINY;
     if matches!(f, Ln | Sqrt) {
         if neg0(z.imag) && z.real < 0.0 { return vec![zc, cdd(zc.re, dd(-ETA))]; }
+        if tiny(z.imag) && z.real < 0.0 { return vec![cdd(zc.re, dd(ETA.copysign(z.imag)))]; }
         return vec![zc];
     }
     if !INVERSE.contains(&f) { return vec![zc]; }
+    if tiny(z.imag) && z.real != 0.0 { return vec![cdd(zc.re, dd(ETA.copysign(z.imag)))]; }
+    if tiny(z.real) && z.imag != 0.0 && f.imag_axis_cut() { return vec![cdd(dd(ETA.copysign(z.real)), zc.im)]; }
     if z.imag == 0.0 { return vec![cdd(zc.re, dd(ETA)), cdd(zc.re, dd(-ETA))]; }
     if z.real == 0.0 && f.imag_axis_cut() { return vec![cdd(dd(ETA), zc.im), cdd(dd(-ETA), zc.im)]; }
     vec![zc]
@@ -728,7 +736,8 @@ fn judge_polar(st: &mut Stats, acc: &mut Acc, z: &Cmplx, zc: CDD) {
     if let Some(t) = call2(st, "arg", desc, move || zz.arg()) {
         let mut e = (dd(t) - tdd).f().abs();
         if neg0(z.imag) && z.real < 0.0 { e = e.min((dd(t) + tdd).f().abs()); }
-        let tol = K_FWD * U * th.abs();
+        // (plus four subnormal spacings: an argument below 2^-1022 has no relative accuracy left)
+        let tol = K_FWD * U * th.abs() + f64::from_bits(4);
         if tol > 0.0 { upd(&mut acc.misc[8], e / tol); }
         if !(e <= tol) || !(t.abs() <= std::f64::consts::PI) {
             st.violation("C14:arg:Cmplx:value", format!("arg({}) = {} but the principal argument is {:e}; |diff| {:e} > {:e}", showz(z), hexf(t), th, e, tol));
@@ -827,9 +836,9 @@ fn judge_point(st: &mut Stats, acc: &mut Acc, class: &str, z: Cmplx, aux: &Aux) 
 // ------------------------------------------------------------------------------------------------
 // workload
 // ------------------------------------------------------------------------------------------------
-const W_LIST: [(f64, f64); 16] = [(2.0, 0.0), (-1.0, 0.0), (0.5, 0.0), (3.0, 0.0), (0.0, 1.0), (0.0, -2.0), (1.0, 1.0), (-1.5, 2.0),
+const W_LIST: [(f64, f64); 20] = [(2.0 + 7e-11, 0.0), (1e-11, 0.0), (-3.0 + 2e-11, 0.0), (1.0 - 1e-12, 1e-11), (2.0, 0.0), (-1.0, 0.0), (0.5, 0.0), (3.0, 0.0), (0.0, 1.0), (0.0, -2.0), (1.0, 1.0), (-1.5, 2.0),
     (2.0, -2.0), (0.0, 3.0), (0.25, -0.75), (-3.0, 0.0), (0.0, 0.0), (-0.5, 0.0), (1.0 / 3.0, 0.0), (-2.0, -2.0)];
-const X_LIST: [f64; 12] = [2.0, 3.0, -1.0, 0.5, -0.5, 1.0 / 3.0, -2.0, 2.5, -3.0, 0.0, 1.0, 1.5];
+const X_LIST: [f64; 17] = [2.0 + 7e-11, -1.0 - 1e-11, 3e-11, 1.0 - 1e-12, 3.0 + 5e-11, 2.0, 3.0, -1.0, 0.5, -0.5, 1.0 / 3.0, -2.0, 2.5, -3.0, 0.0, 1.0, 1.5];
 const B_LIST: [(f64, f64); 10] = [(2.0, 0.0), (10.0, 0.0), (0.5, 0.0), (std::f64::consts::E, 0.0), (0.0, 1.0), (-2.0, 0.0), (1.0, 1.0), (-1.0, -1.0), (0.1, -3.0), (3.0, 4.0)];
 
 fn enum_aux(i: usize) -> Aux {
@@ -856,13 +865,15 @@ fn enumerated(quick: bool) -> Vec<(Cmplx, &'static str)> {
             p.push((Cmplx::new(x * s, y * s), "polar-grid"));
         }
     }
-    for r in radii(nax) {
+    for (k_ax, r) in radii(nax).into_iter().enumerate() {
         for sr in [1.0, -1.0] {
             for z0 in [0.0, -0.0] {
                 p.push((Cmplx::new(sr * r, z0), "real-axis-signed-zero"));
                 p.push((Cmplx::new(z0, sr * r), "imag-axis-signed-zero"));
             }
-            for eps in [1e-12, r * 1e-9] {
+            // (offsets down to the smallest subnormal: the sign of the imaginary part still selects the side of the cut)
+            for eps in [1e-12, r * 1e-9, 1e-30, 1e-100, 1e-200, 1e-300, f64::MIN_POSITIVE, 1e-310, 2.5e-323, 5e-324] {
+                if eps < 1e-13 && !(k_ax % 4 == 0) { continue; }
                 for se in [1.0, -1.0] {
                     p.push((Cmplx::new(sr * r, se * eps), "beside-real-axis"));
                     p.push((Cmplx::new(se * eps, sr * r), "beside-imag-axis"));
@@ -916,7 +927,7 @@ fn rand_point(rng: &mut Rng) -> (Cmplx, &'static str) {
         2 => { let (x, y) = (rng.range(-7.0, 7.0), rng.range(-7.0, 7.0)); (Cmplx::new(x, y), "random-box") }
         3 => {
             let r = rng.logmag(1e-3, 10.0);
-            let e = r.abs() * tiny(rng) * if rng.bool() { 1.0 } else { -1.0 };
+            let e = if rng.chance(0.25) { *rng.pick(&[5e-324, 1.5e-323, 1e-320, 1e-310, f64::MIN_POSITIVE, 1e-300, 1e-250, 1e-150, 1e-60]) } else { r.abs() * tiny(rng) } * if rng.bool() { 1.0 } else { -1.0 };
             if rng.bool() { (Cmplx::new(r, e), "random-beside-real-axis") } else { (Cmplx::new(e, r), "random-beside-imag-axis") }
         }
         4 => {
@@ -958,7 +969,10 @@ fn rand_aux(rng: &mut Rng) -> Aux {
             _ => { let r = 3.0 * rng.unit().sqrt(); let t = rng.range(0.0, std::f64::consts::TAU); let c = Cmplx::new(r * t.cos(), r * t.sin()); if c.real.hypot(c.imag) <= 3.0 { c } else { Cmplx::new(0.5 * c.real, 0.5 * c.imag) } }
         };
     }
-    let x = [if rng.bool() { rng.range(-3.0, 3.0) } else { *rng.pick(&X_LIST) }, rng.dyadic(12, 2)];
+    // (a third of the real exponents lie within 1e-14..1e-9 of an integer -3..3: no fast path may round them)
+    let near_int = |rng: &mut Rng| rng.int(-3, 3) as f64 + rng.sym().signum() * 10f64.powf(-rng.range(9.0, 14.0));
+    let x = [match rng.below(3) { 0 => rng.range(-3.0, 3.0), 1 => near_int(rng), _ => *rng.pick(&X_LIST) }, rng.dyadic(12, 2)];
+    if rng.chance(0.2) { w[0] = Cmplx::new(near_int(rng), 0.0); }
     let b = loop {
         let r = rng.logpos(1e-3, 10.0);
         let t = rng.range(-std::f64::consts::PI, std::f64::consts::PI);
